@@ -59,7 +59,7 @@ fn indices<const T: usize, const W: u8>() {
 fn indices_all_t1<const KF: usize>() { indices::<1, 0>() }
 // @ob id=indices_single_t1 unwind=4 tier=quick timeout=600 mem=16 bound="document of 1 page(s); PageRange::Single(any) with arbitrary usize operands"
 fn indices_single_t1<const KF: usize>() { indices::<1, 1>() }
-// @ob id=indices_range_t1 unwind=4 tier=quick timeout=600 mem=16 bound="document of 1 page(s); PageRange::Range(any, any) with arbitrary usize operands"
+// @ob id=indices_range_t1 unwind=4 tier=quick timeout=600 mem=24 bound="document of 1 page(s); PageRange::Range(any, any) with arbitrary usize operands"
 fn indices_range_t1<const KF: usize>() { indices::<1, 2>() }
 // @ob id=indices_list_t1 unwind=4 tier=quick timeout=600 mem=16 bound="document of 1 page(s); PageRange::List of 3 arbitrary indices with arbitrary usize operands"
 fn indices_list_t1<const KF: usize>() { indices::<1, 3>() }
@@ -67,7 +67,7 @@ fn indices_list_t1<const KF: usize>() { indices::<1, 3>() }
 fn indices_all_t3<const KF: usize>() { indices::<3, 0>() }
 // @ob id=indices_single_t3 unwind=6 tier=quick timeout=600 mem=16 bound="document of 3 page(s); PageRange::Single(any) with arbitrary usize operands"
 fn indices_single_t3<const KF: usize>() { indices::<3, 1>() }
-// @ob id=indices_range_t3 unwind=6 tier=quick timeout=600 mem=16 bound="document of 3 page(s); PageRange::Range(any, any) with arbitrary usize operands"
+// @ob id=indices_range_t3 unwind=6 tier=quick timeout=600 mem=24 bound="document of 3 page(s); PageRange::Range(any, any) with arbitrary usize operands"
 fn indices_range_t3<const KF: usize>() { indices::<3, 2>() }
 // @ob id=indices_list_t3 unwind=6 tier=quick timeout=600 mem=16 bound="document of 3 page(s); PageRange::List of 3 arbitrary indices with arbitrary usize operands"
 fn indices_list_t3<const KF: usize>() { indices::<3, 3>() }
@@ -75,7 +75,7 @@ fn indices_list_t3<const KF: usize>() { indices::<3, 3>() }
 fn indices_all_t4<const KF: usize>() { indices::<4, 0>() }
 // @ob id=indices_single_t4 unwind=7 tier=thorough timeout=600 mem=16 bound="document of 4 page(s); PageRange::Single(any) with arbitrary usize operands"
 fn indices_single_t4<const KF: usize>() { indices::<4, 1>() }
-// @ob id=indices_range_t4 unwind=7 tier=thorough timeout=600 mem=16 bound="document of 4 page(s); PageRange::Range(any, any) with arbitrary usize operands"
+// @ob id=indices_range_t4 unwind=7 tier=thorough timeout=600 mem=24 bound="document of 4 page(s); PageRange::Range(any, any) with arbitrary usize operands"
 fn indices_range_t4<const KF: usize>() { indices::<4, 2>() }
 // @ob id=indices_list_t4 unwind=7 tier=thorough timeout=600 mem=16 bound="document of 4 page(s); PageRange::List of 3 arbitrary indices with arbitrary usize operands"
 fn indices_list_t4<const KF: usize>() { indices::<4, 3>() }
